@@ -232,3 +232,61 @@ def %s(x0: int, x1: int, x2: int) -> bool:
   """
   return triple_ok(%d, %d, %d, x0, x1, x2)
 ''' % (name, c0, c1, c2)
+
+
+# ---- closing a record through a handle that is (or is not) the root of its union-find chain
+CLOSE = '''
+
+def close_ok(fx, third_ctor, tx, close_via_alias, unify_via_alias, extra_hop):
+  # an open record {a: atom(fx)} reached through a chain of unified references; one handle
+  # closes it; afterwards every handle must denote the closed record, and unifying a third
+  # term through any handle must give the meet with the *closed* record
+  rec_t = ('open', (('a', atom(fx)),))
+  closed_t = ('closed', (('a', atom(fx)),))
+  root = build(rec_t)
+  alias = RA.TypeReference('Any')
+  RA.Unify(alias, root)
+  if extra_hop:
+    far = RA.TypeReference('Any')
+    RA.Unify(far, alias)
+    alias = far
+  (alias if close_via_alias else root).CloseRecord()
+  if norm(read(RA.VeryConcreteType(root))) != closed_t:
+    return False
+  if norm(read(RA.VeryConcreteType(alias))) != closed_t:
+    return False
+  if third_ctor == 0:
+    third = atom(tx)
+  elif third_ctor == 1:
+    third = ('list', atom(tx))
+  elif third_ctor == 2:
+    third = ('open', (('a', atom(tx)),))
+  elif third_ctor == 3:
+    third = ('open', ((0, atom(tx)),))
+  else:
+    third = ('closed', (('a', atom(tx)),))
+  want = meet(closed_t, third)
+  want = norm(want) if want is not None else None
+  t = build(third)
+  RA.Unify(alias if unify_via_alias else root, t)
+  got = [read(RA.VeryConcreteType(h)) for h in (root, alias, t)]
+  clash = any(g == 'BAD' for g in got)
+  if clash != (want is None):
+    return False
+  if clash:
+    return True
+  return all(norm(g) == want for g in got)
+'''
+
+
+def close_fn(third_ctor):
+  name = 'k_close_record_t%d' % third_ctor
+  return name, '''
+
+def %s(fx: int, tx: int, close_via_alias: bool, unify_via_alias: bool, extra_hop: bool) -> bool:
+  \"\"\"
+  pre: 0 <= fx <= 6 and 0 <= tx <= 6
+  post: _
+  \"\"\"
+  return close_ok(fx, %d, tx, close_via_alias, unify_via_alias, extra_hop)
+''' % (name, third_ctor)
